@@ -131,8 +131,15 @@ impl World {
         }
         if self.sverif_rules && edge == "req" {
             // `req(k: Int!)` has a required parameter without default: the `next` neighbours whose id is at least k
+            // ... and, when `lim` (nullable, declared default 9) is not null, at most lim
             let k = params.get("k").cloned().unwrap_or(FV::Null);
-            return ds.out(v, "next").into_iter().filter(|t| matches!(ref_cmp(&ds.prop(*t, "id"), &k), Some(o) if o != std::cmp::Ordering::Less)).collect();
+            let lim = params.get("lim").cloned().unwrap_or(FV::Null);
+            return ds
+                .out(v, "next")
+                .into_iter()
+                .filter(|t| matches!(ref_cmp(&ds.prop(*t, "id"), &k), Some(o) if o != std::cmp::Ordering::Less))
+                .filter(|t| matches!(lim, FV::Null) || matches!(ref_cmp(&ds.prop(*t, "id"), &lim), Some(o) if o != std::cmp::Ordering::Greater))
+                .collect();
         }
         ds.out(v, edge)
     }
